@@ -21,7 +21,7 @@ def reencode(text, seg_t, ele_t, sub_t, eol='', rep_t=None):
         if p.sid == 'ISA':
             vals = [c[0] for c in p.elements]
             if len(vals) >= 16:
-                vals[15] = sub_t
+                vals[15] = vals[15].replace(c0, sub_t) if c0 in vals[15] else vals[15]      # a damaged ISA16 (second interchange) stays damaged in the same way
                 if rep_t is not None and len(vals) >= 11 and vals[11] == '00501':
                     vals[10] = rep_t
             out.append(ele_t.join(['ISA'] + vals) + seg_t)
